@@ -573,7 +573,7 @@ var valuesNumbers = []string{
 }
 
 var valuesBeyondModel = []string{
-	`1E400`, `-1E400`, `1e309`, `[1e1000]`, `{"a":1e400}`, `1e-400`, `9223372036854775808`, `-9223372036854775809`, `18446744073709551616`,
+	`1E400`, `-1E400`, `1e309`, `[1e1000]`, `{"a":1e400}`, `1e-400`, `9223372036854775808`, `-9223372036854775809`, `18446744073709551616`, `9999999999999999999`, `-9999999999999999999`, `10000000000000000000`, `[9223372036854775817,-9223372036854775900]`, `{"a":18446744073709551615}`, `-18446744073709551617`,
 	`123456789012345678901234567890`, `0.1234567890123456789`, `1.7976931348623157e308`, `1.7976931348623159e308`, `4.9e-324`, `2.2250738585072014e-308`, `1e99999999999`, `0e99999999999`, `1e-99999999999`,
 }
 
@@ -601,7 +601,7 @@ var malformedTrailing = []string{
 
 var malformedSyntax = []string{
 	`]`, `}`, `,`, `:`, `[,]`, `[1,]`, `[,1]`, `[1 2]`, `[1:2]`, `{,}`, `{"a"}`, `{"a",1}`, `{"a":}`, `{"a":1,}`, `{,"a":1}`, `{"a" 1}`, `{"a"::1}`, `{a:1}`, `{1:2}`, `{null:1}`, `{"a":1 "b":2}`, `{"a":1,,"b":2}`, `[1,,2]`, `[}`, `{]`, `[1}`, `{"a":1]`,
-	`+1`, `.5`, `1.e5`, `1e5.5`, `0x10`, `1_000`, `--1`, `-a`, `- 1`, `Infinity`, `NaN`, `-Infinity`, `True`, `NULL`, `nil`, `undefined`, `'a'`, `"a\x"`, `"\a"`, `"\u00g0"`, `"\U00000041"`, "\"a\nb\"", "\"\t\"", "\"\x00\"", "\"\x1f\"", `[1] // c`, `/* c */ 1`, `[1,2,3,]`, "\ufeff{}", "\ufeff1", "\x00", "\xef\xbb\xbf[]", `{"a":tru}`, `[nul]`, `[-]`, `{"a":-}`, `\u0031`, `"a`+"\n",
+	`+1`, `.5`, `1.e5`, `1e5.5`, `0x10`, `1_000`, `--1`, `-a`, `- 1`, `Infinity`, `NaN`, `-Infinity`, `True`, `NULL`, `nil`, `undefined`, `'a'`, `"a\x"`, `"\a"`, `"\u00g0"`, `"\U00000041"`, "\"a\nb\"", "\"\t\"", "\"\x00\"", "\"\x1f\"", `[1] // c`, `/* c */ 1`, `[1,2,3,]`, "\ufeff{}", "\ufeff1", "\x00", "\xef\xbb\xbf[]", `{"a":tru}`, `[nul]`, `[-]`, `{"a":-}`, `\u0031`, `"a` + "\n",
 }
 
 var malformedEncoding = []string{
@@ -703,7 +703,7 @@ func init() {
 		"Logical JSON values (depth <= 6; objects with unique keys that are empty, ASCII, non-ASCII, escape-needing, or ordered differently by UTF-16 unit and by code point; strings over controls, quotes, BMP, astral and boundary code points; integers over all of int64; decimals of either sign with <= 15 significant digits and exponents -300..300; nulls in objects and arrays) are each rendered to text three ways (member order, whitespace, literal / short / \\uXXXX / surrogate-pair escapes in either hex case, null members removed or added, decimal spellings such as 1.5 / 1.50 / 15e-1 / 0.15E+1) and every text is canonicalised. Expected bytes come from an independent canonical writer following c14n/README.md rules 1-8 (code point order, null members removed, integers plain, other numbers d.dE[-]x, minimal escapes); all renderings must agree; the output must be valid UTF-8 JSON, sorted, a fixpoint, and read back (by an independent strict reader) as the content minus null members; one-leaf edits must change the bytes. Malformed texts (empty, blank, every proper prefix of a corpus and random prefixes, trailing tokens, stray closers, deleted / replaced bytes, invalid UTF-8, lone surrogate escapes) must give an error: the referee is encoding/json's json.Valid AND valid UTF-8 AND no unpaired surrogate escape. Every Unicode scalar value (quick: U+0000-U+07FF, windows at every encoding boundary and plane edge, every 59th code point) is tried as a one-character string and key in every spelling, and every surrogate code point as a lone escape. Non-trivial: the value has a non-ASCII key, an escape-needing string, a negative or non-integer number, a null member or nesting >= 3, or the text is malformed (own class), or the code point is not plain ASCII.",
 		"a number is an integer when its literal has no fraction or exponent and fits int64; any other spelling is written in exponent form (README usage example: 0.0 -> 0.0E0; the package's tests: 1.0 -> 1.0E0). No equivalence between 1 and 1.0 is asserted",
 		"zero in a non-integer spelling is 0.0E0 whatever its sign (README rule 6.1: no minus sign when the value is zero; rule 7.1 cannot apply)",
-		"decimals with more than 15 significant digits, exponents beyond +-300 and integer literals beyond int64 are only checked for crashes, valid output, fixpoint and 'a number stays a number' (float64 is the documented model); numbers beyond float64 range may be rejected",
+		"decimals with more than 15 significant digits, exponents beyond +-300 and integer literals beyond int64 are checked for crashes, valid output, fixpoint and for being written as the float64 nearest to the literal (float64 is the documented model: sign and magnitude survive); numbers beyond float64 range may be rejected",
 		"objects with duplicate keys are outside the property (crash check only)",
 		"a text containing invalid UTF-8 or an unpaired \\uD800-\\uDFFF escape is not an acceptable document (README rules 1 and 8.3) wherever the bytes sit, including the key of a null member",
 	)
